@@ -12,3 +12,16 @@ pub(super) use primitive_symmetry_search::{
     magnetic_operations_in_magnetic_cell, operations_in_cell, PrimitiveMagneticSymmetrySearch,
 };
 pub(super) use symmetry_search::{iterative_magnetic_symmetry_search, iterative_symmetry_search};
+
+#[cfg(feature = "verif")]
+pub mod verif_exports {
+    pub use super::primitive_cell::{PrimitiveCell, PrimitiveMagneticCell};
+    pub use super::primitive_symmetry_search::{
+        magnetic_operations_in_magnetic_cell, operations_in_cell, PrimitiveMagneticSymmetrySearch,
+        PrimitiveSymmetrySearch,
+    };
+    pub use super::solve::{pivot_site_indices, symmetrize_translation_from_permutation};
+    pub use super::symmetry_search::{
+        iterative_magnetic_symmetry_search, iterative_symmetry_search,
+    };
+}
